@@ -267,7 +267,19 @@ def sx_hex(x):
     return builtins.hex(x)
 
 
+def sx_range(*args):
+    """range(); with ctx.env['range_limit'] set, a loop of more steps than the limit is an
+    unwinding-bound failure (the harness decides what that means) instead of a silent long run"""
+    r = builtins.range(*args)
+    if core.active():
+        lim = core.ctx().env.get('range_limit')
+        if lim is not None and len(r) > lim:
+            raise core.BoundExceeded(f'range of {len(r)} steps (limit {lim})')
+    return r
+
+
 SHADOW_BUILTINS = {
+    'range': sx_range,
     'int': sx_int,
     'bool': sx_bool,
     'float': sx_float,
